@@ -56,6 +56,15 @@ def views(t):
             if k in ("option", "result"):
                 # `Option<&T>` / `Result<&T, &E>` by value: the inner regions take references
                 out.append(View("asref", lambda x: "%s.as_ref()" % x))
+        if not out and all(inner):
+            # no uniform presentation (e.g. a codec field only takes `&[u8]`): each child in its own first form
+            vs = [views(x)[0] for x in t.sub()]
+            if k == "option":
+                out.append(View("mix", lambda x: "%s.as_ref().map(|y| %s)" % (x, vs[0].expr("y"))))
+            elif k == "result":
+                out.append(View("mix", lambda x: "match %s { Ok(y) => Ok(%s), Err(y) => Err(%s) }" % (x, vs[0].expr("y"), vs[1].expr("y"))))
+            else:
+                out.append(View("mix", lambda x: "(%s,)" % ", ".join(v.expr("(&%s.%d)" % (x, i)) for i, v in enumerate(vs))))
         return out
     if k == "consec":
         return views(a[0])
@@ -123,6 +132,8 @@ def forms(t):
     for v in vs:
         if v.name == "own":
             out.append(Form("own", v.expr, lambda t_: t_, True))
+        elif v.name == "mix":
+            out.append(Form("mix", v.expr, lambda t_: t_, True))
         elif v.name == "ref":
             out.append(Form("ref", lambda w: "%s.clone()" % w if not copyprim(t) else "(*%s)" % w, lambda t_: t_, False))
         else:
